@@ -150,9 +150,16 @@ func seqInts(from, to int) []int {
 }
 
 func CheckC15(run *evid.Run) {
+	defer func() {
+		// iteration vs writers, one scenario at a time in child processes (exact deadlock classification)
+		runCases(run, "C15lock", pick(run.Tier, 160, 3000), true, run.Tier == "thorough", ChildOpts{
+			OnDeath: func(last map[string]any, tail, kind string) (string, map[string]any) {
+				return "C15/panic", det("kind", kind, "scenario", last["scenario"])
+			}})
+	}()
 	nh := pick(run.Tier, 800, 12000)
 	perLog := pick(run.Tier, 60, 220)
-	run.Rule = "seeded forked histories (default ordering when total, hash-tiebreak); on the final state of every replica a seeded set of iterator queries: upper bound in {default heads, 1-3 inclusive bounds (causally related or unrelated), one exclusive bound, unknown hash}; lower bound in {none, inclusive, exclusive} at seeded positions inside the selected range; amount in {nil, 0, 1, ..., size+2}; every query runs under recover with a buffered channel drained after the call returned. The emitted sequence must equal the model's (past of the upper bound, newest first, cut at the lower bound, first/last `amount`), the channel must be closed on success, unknown upper bounds must be errors. With several causally related inclusive bounds and an amount (no lower bound) the oracle accepts a prefix that is short by at most (#bounds-1), because the property only promises 'at most'. Non-trivial query = on a log with a fork and with a lower bound or an amount; distinct = (upper kind, lower kind, amount class, heads>1) + position classes"
+	run.Rule = "seeded forked histories (default ordering when total, hash-tiebreak); on the final state of every replica a seeded set of iterator queries: upper bound in {default heads, 1-3 inclusive bounds (causally related or unrelated), one exclusive bound, unknown hash}; lower bound in {none, inclusive, exclusive} at seeded positions inside the selected range; amount in {nil, 0, 1, ..., size+2}; every query runs under recover with a buffered channel drained after the call returned. The emitted sequence must equal the model's (past of the upper bound, newest first, cut at the lower bound, first/last `amount`), the channel must be closed on success, unknown upper bounds must be errors. With several causally related inclusive bounds and an amount (no lower bound) the oracle accepts a prefix that is short by at most (#bounds-1), because the property only promises 'at most'. After the queries a writer and a further iteration must complete (state-based: a writer in a lock wait is a violation), also through an unbuffered channel whose consumer writes to the same log. In child processes, one scenario at a time: every kind of bounded iteration is parked at its hook points while an append / merge / identity change starts on the same log (both must end; deadlock = every library goroutine in a lock wait, twice, no hook event), and logs trimmed by a size-bounded merge are iterated with bounds at their oldest entry before a writer is started. Non-trivial query = on a log with a fork and with a lower bound or an amount; distinct = (upper kind, lower kind, amount class, heads>1) + position classes"
 	parallel(nh, func(i int) {
 		rng := rand.New(rand.NewSource(run.Seed*1299709 + int64(i)))
 		h := hx.Gen(run.Seed, i, hx.GenOpts{MaxSteps: pick(run.Tier, 30, 60), Orders: []string{"hash", "default"}, Shapes: []string{"widefork", "diamond", "mixed", "overlap", "lopsided", "ring"}})
